@@ -465,6 +465,9 @@ func checkC01(c *Ctx, r *Report) {
 
 	// role byte agreement with RAKP Message 1 byte 24
 	checkRoleByteWire(c, r)
+	// "its response is returned to the caller": the confidentiality pad of a reply of any length is
+	// found where the BMC put it (rule shared with C04)
+	checkPadValidated(c, r)
 
 	// ---- (3) key wiring
 	checkKeyWiring(c, r, found)
